@@ -553,8 +553,12 @@ impl ProcessorSetBuilder {
                         "we picked an existing key from an existing HashSet - the values must exist",
                     );
 
-                    // There might not be enough to fill the request, which is fine.
-                    let choose_count = count.min(processors_in_region.len());
+                    // There might not be enough to fill the request, which is fine. We only take
+                    // as many as are still missing, so that a request spanning several memory
+                    // regions yields exactly `count` processors.
+                    let choose_count = count
+                        .saturating_sub(processors.len())
+                        .min(processors_in_region.len());
 
                     let region_processors = processors_in_region
                         .sample(&mut rng(), choose_count)
